@@ -737,6 +737,7 @@ func replay(f *lib.Flags, emptyDir string) int {
 	for i, t := range h.All() {
 		fmt.Printf("--- text %d, loaded as %s (%d bytes)\n%s\n", i, h.Names[i], len(t), short(fmt.Sprintf("%q", t), 4000))
 	}
+	os.Setenv("VERIF_C01_RAW", "1")
 	w := &isolated{emptyDir: emptyDir}
 	defer w.close()
 	v := w.run(&h)
@@ -749,6 +750,9 @@ func replay(f *lib.Flags, emptyDir string) int {
 		v.Wall.Round(time.Millisecond), v.Rep.Parsed, v.Rep.Accepted, v.Rep.NErrs, v.Rep.Nodes)
 	for _, e := range v.Rep.Errs {
 		fmt.Println("  go:   ", e)
+	}
+	for _, e := range v.Rep.RawErrs {
+		fmt.Println("  go message:", e)
 	}
 	if v.Rep.Wire == "" || f.Driver == "" {
 		fmt.Println("survival-only history (outside the modelled domain)")
